@@ -116,3 +116,66 @@ def unit_spread_row_cells(twin=False):
     r.assumptions += ["representation invariant of spread_row: count == type_vector.size() == str_vector.size() (string_to_spread_row, not under this contract)",
                       "the column index is non-negative (loop counters start at 0)", "std::vector::operator[] is in bounds iff 0 <= index < size()"]
     return r
+
+
+READ_CPP = "src/phreeqcpp/read.cpp"
+
+
+def unit_get_option_room(twin=False):
+    """Phreeqc::get_option writes the full option name over the abbreviation typed, in place, in the heap buffers `line` and `line_save`
+    (capacity max_line each, established by Phreeqc::get_line).  Contract: whenever replace(abbreviation, opt_list[j], buffer) is called, the
+    buffer that receives the longer text has room for it: strlen(buffer) + strlen(opt_list[j]) + 1 <= capacity, where the capacity is max_line
+    when the buffer was not reallocated on the path and the size handed to PHRQ_realloc when it was; max_line is kept equal to that size."""
+    q = "Phreeqc::get_option"
+    c = ctx(functional=("reading_database", "strlen"))
+    stop_on_error_msg(c)
+    fn, ex, fin, info = U.run_function(READ_CPP, q, ctx=c)
+    r = U.new_unit("C08.get_option.buffers_have_room_for_the_full_option_name", READ_CPP, q, fn)
+    nm = lambda e: e.name.split("::")[-1]
+    nrep = 0; kinds = set()
+    for s in fin:
+        if s.status != "ret":
+            continue
+        reps = [e for e in s.events if nm(e) == "replace"]
+        if not reps:
+            continue
+        if B.z3_sat(list(s.pc)) == "unsat":
+            continue
+        ml1 = ex.coerce(fld(ex, s, "max_line", "I"), "I"); ml0 = ex.coerce(fld0(ex, s, "max_line", "I"), "I")
+        lens = [e for e in s.events if nm(e) == "strlen"]
+        reallocs = [e for e in s.events if nm(e) == "PHRQ_realloc"]
+        for e in reps:
+            nrep += 1
+            dest = e.args[2]; name = e.args[1]
+            which = [f for f in ("line", "line_save") if dest is fld(ex, s, f, "P")]
+            if len(which) != 1:
+                r.add("replace#%d.destination_is_line_or_line_save" % nrep, FAILED, "trace", 0, repr(dest)[:100], kind="safety"); continue
+            f = which[0]
+            old = fld0(ex, s, f, "P")
+            # length of the text in the buffer (taken before any reallocation: PHRQ_realloc keeps the text) and of the full name
+            ltxt = [x.result for x in lens if x.args and x.args[-1] is old and s.events.index(x) < s.events.index(e)]
+            lname = [x.result for x in lens if x.args and (x.args[-1] is name or repr(x.args[-1]) == repr(name)) and s.events.index(x) < s.events.index(e)]
+            ra = [x for x in reallocs if x.result is dest]
+            if ra:
+                kinds.add("grown")
+                cap = ex.coerce(ra[0].args[-1], "I")
+                r.add("replace#%d(%s).reallocated_buffer_is_the_old_one_grown" % (nrep, f), DISCHARGED if ra[0].args[0] is old else FAILED, "trace", 0, repr(ra[0].args[0])[:80], kind="safety")
+                U.discharge_valid(r, "replace#%d(%s).max_line_is_the_new_capacity" % (nrep, f), list(s.pc), tm.eq(tm.to_int(ml1) if ml1.sort != "I" else ml1, cap), kind="safety")
+            else:
+                kinds.add("kept")
+                cap = ml0
+                U.discharge_valid(r, "replace#%d(%s).max_line_unchanged_when_not_reallocated" % (nrep, f), list(s.pc), tm.eq(ml1, ml0), kind="safety")
+            if not ltxt or not lname:
+                # nothing on the path measured the two texts: the room cannot have been checked
+                r.add("replace#%d(%s).strlen(buffer)+strlen(full_name)+1<=capacity" % (nrep, f), FAILED, "trace", 0,
+                      "no strlen of the buffer / of the full name is taken before the text is lengthened", kind="safety")
+                continue
+            hy = list(s.pc) + [tm.le(tm.num(0, "I"), ltxt[0]), tm.le(tm.num(0, "I"), lname[0]), tm.lt(tm.num(0, "I"), ml0)]
+            need = tm.add(tm.add(ltxt[0], lname[0]), tm.num(1 if not twin else 2 ** 40, "I"))
+            U.discharge_valid(r, "replace#%d(%s).strlen(buffer)+strlen(full_name)+1<=capacity" % (nrep, f), hy, tm.le(need, cap), kind="safety")
+    r.add("reach.rewrites_on_kept_and_on_grown_buffers", DISCHARGED if kinds == {"kept", "grown"} and nrep >= 4 else UNDECIDED, "symex", 0, "%s %d" % (sorted(kinds), nrep), kind="vacuity")
+    r.assumptions += ["on entry line and line_save are NUL-terminated buffers of capacity max_line (Phreeqc::get_line / cleanup_after_parser size them so)",
+                      "PHRQ_realloc(p, n) returns a buffer of n bytes that keeps the text of p; check_line / copy_token / find_option do not move the buffers (calls are pure here)",
+                      "replace(str1, str2, buf) needs strlen(buf) - strlen(str1) + strlen(str2) + 1 bytes (C08.replace.bytes_needed...); the bound proved here does not subtract strlen(str1)",
+                      "machine int treated as mathematical integer (a line longer than INT_MAX/2 is not considered)"]
+    return r
